@@ -120,6 +120,7 @@ func main() {
 		maxSteps   = flag.Int("maxsteps", 2000000, "SSA instruction budget per path")
 		maxDepth   = flag.Int("maxdepth", 200, "call depth budget")
 		maxPaths   = flag.Int("maxpaths", 0, "path budget (0 = none)")
+		maxWall    = flag.Int("maxwall", 0, "wall-clock budget in seconds (0 = none): exploration stops, what was found is reported, the run is inconclusive")
 		maxViol    = flag.Int("maxviol", 8, "stop after this many distinct violations")
 		resetEvery = flag.Int("resetevery", 3000, "restart solver and term table every n paths per worker")
 		jsonOut    = flag.String("json", "", "write result JSON here")
@@ -182,7 +183,7 @@ func main() {
 		os.Exit(3)
 	}
 	cfg := Config{MaxSteps: *maxSteps, MaxDepth: *maxDepth, Trace: *trace, MapOrder: *mapOrder, Solver: *solver,
-		TimeoutMs: *timeoutMs, Workers: *workers, MaxPaths: *maxPaths, MaxViol: *maxViol, ResetEvery: *resetEvery,
+		TimeoutMs: *timeoutMs, Workers: *workers, MaxPaths: *maxPaths, MaxWallS: *maxWall, MaxViol: *maxViol, ResetEvery: *resetEvery,
 		Params: map[string]int64{}, Known: map[string]bool{}, CrossSolver: *cross, CrossMax: *crossMax, CrossTimeoutMs: *crossTO}
 	for _, kv := range params {
 		i := strings.IndexByte(kv, '=')
